@@ -117,12 +117,42 @@ def run_case(sim, seed, i):
         stats["skipped"] = "generator_rejected"
         return stats, viols
     stats["valid_original_wrote"] = len(mutations_under(good["ops"], outs))
-    prepopulate = rng.chance(0.5)
+    prepopulate = rng.chance(0.6)
     desc["prepopulated"] = prepopulate
     pre_files, pre_dirs = {}, []
     if prepopulate:
-        pre_files = {p: c for p, c in tw.tree_files(good["tree"]).items() if any(p.startswith(d + "/") for d in outs)}
-        pre_dirs = [p for p in tw.tree_dirs(good["tree"]) if any(p == d or p.startswith(d + "/") for d in outs)]
+        src = good
+        pr = rng.fork("pre")
+        if pr.chance(0.45):
+            # what is on disk comes from an *earlier state* of the package: it then also imported a package (namespace
+            # Legacy) that it no longer refers to, so the output directories hold files the current package does not produce
+            earlier = dict(valid_files)
+            earlier["/w/imp_legacy/_package.yml"] = "namespace: Legacy\n"
+            earlier["/w/imp_legacy/legacy.yml"] = "LegacyRec: !record\n  fields:\n    id: int\n    label: string\n\nLegacyEnum: !enum\n  values:\n    - one\n    - two\n"
+            man = earlier["/w/pkg/_package.yml"]
+            if "imports:\n" in man:
+                man = man.replace("imports:\n", "imports:\n  - ../imp_legacy\n", 1)
+            else:
+                man = man.replace("\n", "\nimports:\n  - ../imp_legacy\n", 1)
+            earlier["/w/pkg/_package.yml"] = man
+            mf = E.model_files(earlier, "/w/pkg")
+            if mf:
+                earlier[mf[0]] = earlier[mf[0]] + "\nUsesLegacy: !record\n  fields:\n    old: Legacy.LegacyRec\n"
+            old = sim.run(tw.oneshot_spec(earlier, "/w/pkg"), mapseed=ms)
+            stats["runs"] += 1
+            if old.get("status") == "returned" and old.get("exit_code") == 0:
+                src = old
+                desc["prepopulated_by_earlier_state"] = True
+        pre_files = {p: c for p, c in tw.tree_files(src["tree"]).items() if any(p.startswith(d + "/") for d in outs)}
+        pre_dirs = [p for p in tw.tree_dirs(src["tree"]) if any(p == d or p.startswith(d + "/") for d in outs)]
+        if pr.chance(0.4):
+            # files of the user's own in and below the output directories
+            for d in outs:
+                pre_files[d + "/NOTES.txt"] = "my notes\n"
+                sub = sorted(q for q in pre_dirs if q.startswith(d + "/"))
+                if sub:
+                    pre_files[pr.choice(sub) + "/local_helpers.py"] = "# not generated\n"
+            desc["user_files_in_output_dirs"] = True
 
     def execute(fs, faults=None):
         init = dict(fs)
@@ -246,7 +276,7 @@ def main():
         sys.exit(1 if ok else 0)
     quick = args.tier == "quick"
     budget = check.budget(60, 1500)
-    max_cases = 240 if quick else 1000000
+    max_cases = 400 if quick else 1000000
     totals = {"runs": 0, "generator_rejected": 0, "invalid_cases": 0, "faults_fired": 0, "fault_absorbed": 0, "fault_reported": 0,
               "fault_before_first_write": 0, "prepopulated": 0, "process_died": 0}
     matrix = {}
